@@ -12,10 +12,12 @@ VARIABLE l
 Verdict(e) ==
     CASE e.op = "sign" ->        \* bip340.sign(key, msg, aux); key is a 32-byte string; aux = the 32 bytes used
            LET want == Sign(NFromBE(e.key), e.msg, e.aux) IN
-           IF ~want.ok THEN (IF e.ok THEN "sign-accepts-where-bip340-refuses" ELSE "ok")
+           IF ~e.auxknown /\ PrivFromBytes(e.key).ok /\ ~e.ok THEN "ok"   \* k' = 0 for an aux nobody recorded cannot be excluded
+           ELSE IF ~want.ok /\ (e.auxknown \/ ~PrivFromBytes(e.key).ok) THEN (IF e.ok THEN "sign-accepts-where-bip340-refuses" ELSE "ok")
            ELSE IF ~e.ok THEN "sign-raised"
-           ELSE IF e.res # want.v THEN "signature-differs-from-bip340-default-signing"
-           ELSE IF e.chk /\ ~Verify(XOnlyPub(NFromBE(e.key)), e.msg, e.res) THEN "signature-not-accepted-under-xonly-key"
+           ELSE IF e.auxknown /\ e.res # want.v THEN "signature-differs-from-bip340-default-signing"
+           \* aux omitted and drawn from a source the harness does not script: any valid BIP340 signature for the key
+           ELSE IF (e.chk \/ ~e.auxknown) /\ ~Verify(XOnlyPub(NFromBE(e.key)), e.msg, e.res) THEN "signature-not-accepted-under-xonly-key"
            ELSE IF ~e.selfok THEN "own-verifier-rejects-own-signature" ELSE "ok"
       [] e.op = "pub" ->         \* bip340.pubkey(compute_point(key)) for a valid secret key
            LET d == PrivFromBytes(e.key) IN
